@@ -7,10 +7,12 @@
 (B) moments:    mask contours (int64), polygons and ellipses (float64) -> cont_moments_cv,
                 inert_ratio_raw/prnc vs the Lean model (exact rationals); translation, axis swap,
                 rotation (90 degrees, arbitrary angles), prnc >= 1, area == |shoelace|;
-(C) volume:     get_volume / vol_revolve vs the Lean model; cubic scaling, sign flip, convergence of
+(C) volume:     get_volume (fix_orientation off/on, both traversal directions, asymmetric shapes;
+                F35) / vol_revolve vs the Lean model; cubic scaling, sign flip, convergence of
                 discretised spheres and spheroids;
 (D) brightness: get_bright / get_bright_bc / get_bright_perc and the ancillary features of
-                in-memory datasets with offsets as None / float / numpy scalar / int / list /
+                in-memory datasets, images/backgrounds of every integer and float dtype over the
+                full value range vs an exact-rational reference and the Lean model, offsets as None / float / numpy scalar / int / list /
                 tuple / array / per-event feature; offsets shift one-to-one (F19);
 (E) crosstalk:  correct_crosstalk(spill(x)) == x, vs the adjugate inverse of the Lean model.
 """
@@ -29,8 +31,10 @@ RULE = ("A: masks = blobs grown from a seed pixel (8-neighbourhood, holes filled
         "border; a case is non-trivial when the mask has >= 2 pixels (distinct = distinct mask bit "
         "patterns). B/C: every mask contour plus star-shaped polygons and sampled ellipses at "
         "random positions/sizes (float64), pixel sizes 0.1..2; distinct = distinct point lists. "
-        "D: 1-4 events of 6x6..14x18 uint8 images/backgrounds with shape masks, offsets in 9 "
-        "container kinds. E: non-negative spill matrices with |det| >= 0.05, signals up to 1e4, "
+        "D: 1-4 events of 6x6..14x18 images/backgrounds in 16 dtype pairs (uint8, uint16 over the full "
+        "range incl. >= 32768 and 65535, int16, int32, float32, float64; full/upper/lower/top/"
+        "bottom/const/near value styles, backgrounds above the image) with shape masks, offsets in "
+        "9 container kinds incl. 1e6, -2^31, 1e-12; exact-rational reference. E: non-negative spill matrices with |det| >= 0.05, signals up to 1e4, "
         "plus negative / singular / two-channel matrices. Implementation vs Lean model to 1e-9 "
         "relative (relative to the magnitude of the cancelling terms for central moments).")
 TRUSTED_BASE = [
@@ -63,7 +67,8 @@ NOT_PROVED = [
     "convergence of the discretised sphere/spheroid volume to the analytic value "
     "(|err| <= 1.6/r, halving with doubling r) - measured only",
     "inert_ratio_cvx (scipy.spatial.ConvexHull/qhull) and tilt (atan2) - not modelled",
-    "get_volume(fix_orientation=True) (np.unwrap/atan2) - not modelled"]
+    "the orientation test of get_volume(fix_orientation=True) (np.unwrap/atan2) is a parameter of "
+    "the model; that it recognises clockwise contours is checked on star-shaped contours only"]
 
 MOM_KEYS = ["m00", "m10", "m01", "m20", "m11", "m02", "m30", "m21", "m12", "m03",
             "mu20", "mu11", "mu02", "mu30", "mu21", "mu12", "mu03"]
@@ -393,6 +398,19 @@ def moments_oracles(M, cont, rng):
     return fails
 
 
+def purity_fails(fi, c):
+    """features are functions of the contour: computing one must not change the caller's array
+    (every later feature would be computed from different data); returns (failures, intact c)"""
+    snapshot = c.copy()
+    for fname in ("cont_moments_cv", "get_inert_ratio_raw", "get_inert_ratio_cvx", "get_tilt",
+                  "get_inert_ratio_prnc"):
+        guarded(getattr(fi, fname), c)
+        if not np.array_equal(c, snapshot):
+            return [f"{fname} modified the contour array it was given (dtype {c.dtype}); "
+                    f"features computed afterwards are wrong"], snapshot
+    return [], c
+
+
 def gen_polygon(rng):
     kind = rng.choice(["star", "star", "star-int", "ellipse", "ellipse-rot", "tri", "cw"])
     cx, cy = rng.uniform(-300, 300), rng.uniform(-300, 300)
@@ -434,11 +452,10 @@ def part_b(ctx, M, jobs, conts):
             continue
         m = res[1]
         ofails = []
-        o = guarded(moments_oracles, M, c, ctx.rng)
-        if o[0] != "ok":
-            ofails = [f"oracle evaluation raised {o[1]}"]
-        else:
-            ofails = o[1]
+        ofails, c = purity_fails(fi, c)
+        if not ofails:
+            o = guarded(moments_oracles, M, c, ctx.rng)
+            ofails = o[1] if o[0] == "ok" else [f"oracle evaluation raised {o[1]}"]
         if ofails:
             ctx.violation("spec", f"moments of a {kind} contour: {ofails[0]}",
                           {"part": "B", "cont": c.tolist(), "dtype": c.dtype.str,
@@ -485,9 +502,31 @@ def volume_oracles(M, cont, px, py, pix, rng):
                          f"{vk!r} vs {k ** 3 * v!r})")
             break
     vr = fv.get_volume(cont[::-1].copy(), px, py, pix)
-    if not U.close_to(vr, -v, 1e-9, scale=volume_scale(cont, px, py, pix)):
+    S = volume_scale(cont, px, py, pix)
+    if not U.close_to(vr, -v, 1e-9, scale=S):
         fails.append(f"volume of the reversed contour is not the negative ({vr!r} vs {-v!r})")
+    # fix_orientation=True: the volume of the contour traversed in the direction the orientation
+    # test asks for, i.e. +-get_volume(cont), the same for both traversal directions
+    cw = orientation_cw(cont, px, py, pix)
+    vf = fv.get_volume(cont, px, py, pix, fix_orientation=True)
+    if not U.close_to(vf, -v if cw else v, 1e-9, scale=S):
+        fails.append(f"get_volume(fix_orientation=True) = {vf!r} of a "
+                     f"{'clockwise' if cw else 'counter-clockwise'} contour is not the volume of "
+                     f"the counter-clockwise contour ({(-v if cw else v)!r})")
+    cwr = orientation_cw(cont[::-1], px, py, pix)
+    vfr = fv.get_volume(cont[::-1].copy(), px, py, pix, fix_orientation=True)
+    if cwr != cw and not U.close_to(vfr, vf, 1e-9, scale=S):
+        fails.append(f"get_volume(fix_orientation=True) depends on the traversal direction "
+                     f"({vf!r} vs {vfr!r})")
     return fails
+
+
+def orientation_cw(cont, px, py, pix):
+    """the orientation test of volume.counter_clockwise (a parameter of the model: unwrap/atan2)"""
+    c = np.asarray(cont)
+    z = c[:, 0] - px / pix
+    r = c[:, 1] - py / pix
+    return bool(np.average(np.diff(np.unwrap(np.arctan2(z, r)))) < 0)
 
 
 def volume_scale(cont, px, py, pix):
@@ -515,6 +554,17 @@ def part_c(ctx, M, jobs, conts):
         else:
             px, py = float(c[:, 0].mean()) * pix, float(c[:, 1].mean()) * pix
         cases.append(("mask:" + kind, c, px, py, pix))
+        if ctx.rng.random() < 0.5:              # the same contour traversed clockwise
+            cases.append(("maskrev:" + kind, c[::-1].copy(), px, py, pix))
+    for _ in range(ctx.n(60, 600)):             # asymmetric star shapes about pos, both directions
+        pix = ctx.rng.uniform(0.1, 2.0)
+        cx, cy = ctx.rng.uniform(20, 300), ctx.rng.uniform(20, 300)
+        c = U.star_polygon(ctx.rng, n=ctx.rng.randint(4, 14), cx=cx, cy=cy,
+                           rmin=ctx.rng.uniform(2, 5),
+                           rmax=ctx.rng.uniform(8, 40), integer=ctx.rng.random() < 0.3)
+        if ctx.rng.random() < 0.5:
+            c = c[::-1].copy()
+        cases.append(("orient", c, cx * pix, cy * pix, pix))
     for _ in range(ctx.n(200, 2000)):
         kind, c = gen_polygon(ctx.rng)
         pix = ctx.rng.uniform(0.1, 2.0)
@@ -526,7 +576,15 @@ def part_c(ctx, M, jobs, conts):
         cases.append(("short", c, 0.0, 0.0, 1.0))
     for kind, c, px, py, pix in cases:
         ctx.stat("C:" + kind.split(":")[0])
+        snapshot = c.copy()
         res = guarded(fv.get_volume, c, px, py, pix)
+        guarded(fv.get_volume, c, px, py, pix, fix_orientation=True)
+        if not np.array_equal(c, snapshot):
+            ctx.violation("spec", "get_volume modified the contour array it was given",
+                          {"part": "C", "cont": snapshot.tolist(), "dtype": c.dtype.str,
+                           "pos_x": px, "pos_y": py, "pix": pix})
+            c = snapshot
+            continue
         ctx.case(("C", c.tobytes(), px, py, pix), nontrivial=len(c) >= 4)
         rp = {"part": "C", "cont": c.tolist(), "dtype": c.dtype.str, "pos_x": px, "pos_y": py,
               "pix": pix}
@@ -536,10 +594,28 @@ def part_c(ctx, M, jobs, conts):
         v = res[1]
         o = guarded(volume_oracles, M, c, px, py, pix, ctx.rng)
         ofails = o[1] if o[0] == "ok" else [f"oracle evaluation raised {o[1]}"]
+        if kind == "orient" and not ofails and np.isfinite(v):      # star-shaped about pos: the fixed volume is > 0
+            vf = fv.get_volume(c, px, py, pix, fix_orientation=True)
+            if not (vf > 0 and U.close_to(vf, abs(v), 1e-9, scale=volume_scale(c, px, py, pix))):
+                ofails = [f"get_volume(fix_orientation=True) of a star-shaped contour is {vf!r}, "
+                          f"not |volume| = {abs(v)!r}"]
         if ofails:
             ctx.violation("spec", f"volume of a {kind} contour: {ofails[0]}",
                           dict(rp, failures=ofails))
             continue
+        if len(c) >= 4:
+            cw = orientation_cw(c, px, py, pix)
+            ctx.stat("C:fix-orientation-cw" if cw else "C:fix-orientation-ccw")
+            vfx = guarded(fv.get_volume, c, px, py, pix, fix_orientation=True)
+
+            def cbf(ans, vfx=vfx, rp=rp, c=c, px=px, py=py, pix=pix):
+                if vfx[0] != "ok" or ans == "nan":
+                    return ("get_volume(fix_orientation) vs model", str(vfx[1]), ans[:40], rp)
+                if not U.close_to(vfx[1], U.unrat(ans), 1e-9, scale=volume_scale(c, px, py, pix)):
+                    return ("get_volume(fix_orientation) vs model", repr(vfx[1]),
+                            repr(float(U.unrat(ans))), rp)
+            jobs.add(f"volfix {U.rat(U.PI)} {U.rat(pix)} {U.rat(px)} {U.rat(py)} {int(cw)} "
+                     + U.pts_line(c), cbf)
 
         def cb(ans, v=v, rp=rp, c=c, px=px, py=py, pix=pix):
             if ans == "nan":
@@ -670,11 +746,59 @@ def effective_offsets(kind, values, n):
     return [float(v) for v in values]
 
 
+DTYPE_PAIRS = [("uint8", "uint8"), ("uint8", "uint8"), ("uint16", "uint16"), ("uint16", "uint16"),
+               ("uint16", "uint16"), ("int16", "int16"), ("int32", "int32"), ("uint8", "uint16"),
+               ("uint16", "uint8"), ("uint16", "float32"), ("uint16", "int32"), ("int16", "float64"),
+               ("float32", "float32"), ("float64", "float64"), ("float32", "uint16"),
+               ("uint8", "float64")]
+
+
+def dtype_range(name):
+    if name.startswith("float"):
+        return (-70000, 70000)
+    ii = np.iinfo(name)
+    return (int(ii.min), int(ii.max))
+
+
+def gen_values(rs, rng, name, shape, style, mm, other=None):
+    """pixel values of dtype `name` (as int64/float64 before the cast) covering the full range"""
+    lo, hi = dtype_range(name)
+    span = hi - lo
+    if style == "full":
+        v = rs.randint(lo, hi + 1, shape, dtype=np.int64)
+    elif style == "upper":                      # upper half of the range (>= 32768 for uint16)
+        v = rs.randint(lo + span // 2 + 1, hi + 1, shape, dtype=np.int64)
+    elif style == "lower":
+        v = rs.randint(lo, lo + span // 2 + 1, shape, dtype=np.int64)
+    elif style == "top":                        # a few levels below the maximum, maximum included
+        v = rs.randint(max(lo, hi - 40), hi + 1, shape, dtype=np.int64)
+    elif style == "bottom":
+        v = rs.randint(lo, min(hi, lo + 40) + 1, shape, dtype=np.int64)
+    elif style == "const":
+        v = np.full(shape, rng.choice([lo, hi, lo + span // 2, lo + span // 2 + 1,
+                                       rng.randint(lo, hi)]), dtype=np.int64)
+    else:                                       # "near": other image +- a little, clipped
+        v = np.clip(np.asarray(other, dtype=np.float64).astype(np.int64)
+                    + rs.randint(-40, 41, shape) - 30 * mm, lo, hi)
+    # force the extremes onto masked pixels now and then
+    ys, xs = np.nonzero(mm)
+    if len(ys) and rng.random() < 0.5:
+        k = rng.randrange(len(ys))
+        v[ys[k], xs[k]] = hi
+        k = rng.randrange(len(ys))
+        v[ys[k], xs[k]] = rng.choice([lo, lo + span // 2 + 1])
+    return v
+
+
 def gen_bright_case(rng, thorough=False):
     n = rng.randint(1, 4)
     h, w = rng.randint(6, 14), rng.randint(6, 18)
     rs = np.random.RandomState(rng.randrange(2 ** 31))
-    style = rng.choice(["noise", "smooth", "dark", "const"])
+    idt, bdt = rng.choice(DTYPE_PAIRS)
+    istyle = rng.choice(["full", "upper", "lower", "top", "bottom", "const"])
+    bstyle = rng.choice(["full", "upper", "lower", "top", "bottom", "const", "near", "near"])
+    frac_img = idt.startswith("float") and rng.random() < 0.3
+    frac_bg = bdt.startswith("float") and rng.random() < 0.6
     masks, imgs, bgs = [], [], []
     for _ in range(n):
         for _try in range(20):
@@ -686,45 +810,41 @@ def gen_bright_case(rng, thorough=False):
         mm[:sub.shape[0], :sub.shape[1]] = sub
         if mm.sum() == 0:
             mm[h // 2, w // 2] = True
-        if style == "noise":
-            img = rs.randint(0, 256, (h, w))
-            bg = rs.randint(0, 256, (h, w))
-        elif style == "smooth":
-            yy, xx = np.mgrid[:h, :w]
-            bg = (120 + 3 * xx + 2 * yy) % 256
-            img = np.clip(bg - 40 * mm + rs.randint(-5, 6, (h, w)), 0, 255)
-        elif style == "dark":
-            img = rs.randint(0, 30, (h, w))
-            bg = rs.randint(200, 256, (h, w))      # uint8 subtraction would wrap around
-        else:
-            img = np.full((h, w), rs.randint(0, 256))
-            bg = np.full((h, w), rs.randint(0, 256))
+        img = gen_values(rs, rng, idt, (h, w), istyle, mm).astype(np.float64)
+        if frac_img:
+            img = img + rs.randint(-3, 4, (h, w)) / 4.0
+        img = img.astype(idt)
+        bg = gen_values(rs, rng, bdt, (h, w), bstyle, mm, other=img).astype(np.float64)
+        if frac_bg:
+            bg = bg + rs.randint(-7, 8, (h, w)) / 8.0
         masks.append(mm)
-        imgs.append(img.astype(np.uint8))
-        bgs.append(bg.astype(np.uint8))
+        imgs.append(img)
+        bgs.append(bg.astype(bdt))
     kind = rng.choice(OFF_KINDS)
     values = [rng.choice([round(rng.uniform(-20, 20), 2), float(rng.randint(-5, 5)),
-                          rng.uniform(-3, 3)]) for _ in range(n)]
+                          rng.uniform(-3, 3), 1e6, -65535.0, 32768.0, 1e-3, 123456.789,
+                          -2.0 ** 31, 1e-12]) for _ in range(n)]
     if kind in ("int",):
-        values = [float(rng.randint(-9, 9))] * n
+        values = [float(rng.choice([rng.randint(-9, 9), 65535, -40000, 2 ** 31]))] * n
     if kind in ("float", "npfloat"):
         values = [values[0]] * n
     stack = rng.choice(["array3d", "list"])
     return {"masks": masks, "imgs": imgs, "bgs": bgs, "off_kind": kind, "off_values": values,
-            "stack": stack}
+            "stack": stack, "frac_img": frac_img}
 
 
 def bright_payload(case):
     return {"part": "D", "masks": [m.astype(int).tolist() for m in case["masks"]],
             "imgs": [a.tolist() for a in case["imgs"]], "bgs": [a.tolist() for a in case["bgs"]],
             "off_kind": case["off_kind"], "off_values": list(case["off_values"]),
-            "stack": case["stack"]}
+            "stack": case["stack"], "img_dtype": str(case["imgs"][0].dtype),
+            "bg_dtype": str(case["bgs"][0].dtype)}
 
 
 def bright_unpayload(p):
     return {"masks": [np.array(m, dtype=bool) for m in p["masks"]],
-            "imgs": [np.array(a, dtype=np.uint8) for a in p["imgs"]],
-            "bgs": [np.array(a, dtype=np.uint8) for a in p["bgs"]],
+            "imgs": [np.array(a, dtype=p.get("img_dtype", "uint8")) for a in p["imgs"]],
+            "bgs": [np.array(a, dtype=p.get("bg_dtype", "uint8")) for a in p["bgs"]],
             "off_kind": p["off_kind"], "off_values": p["off_values"], "stack": p.get("stack", "list")}
 
 
@@ -799,16 +919,21 @@ def bright_eval(M, case):
     # the definitions themselves (exact reference)
     for i in range(n):
         ref = exact_stats(masks[i], imgs[i], bgs[i])
-        ref0 = exact_stats(masks[i], imgs[i], np.zeros_like(bgs[i]))
+        ref0 = exact_stats(masks[i], imgs[i], None, trunc=False)
+        sc = bright_scale(imgs[i], bgs[i])
+        tol0 = 1e-6 if imgs[i].dtype == np.float32 else 1e-9     # np.mean accumulates in float32
         got = [base_bc[0][i], base_bc[1][i], base_pc[0][i], base_pc[1][i]]
         for name, a, b in zip(["bright_bc_avg", "bright_bc_sd", "bright_perc_10", "bright_perc_90"],
                               got, ref):
-            if not U.close_to(a, b, 1e-9, scale=1.0):
+            if not U.close_to(a, b, 1e-9, scale=sc):
                 fails.append(f"{name} = {a!r} is not the mean/sd/percentile of image - background "
-                             f"under the mask ({b!r})")
+                             f"under the mask ({b!r}; image {imgs[i].dtype}, background "
+                             f"{bgs[i].dtype})")
+        sc0 = sc if imgs[i].dtype != np.float32 else sc * 1e6       # float32: relative to max|pixel|
         for name, a, b in zip(["bright_avg", "bright_sd"], [base_b[0][i], base_b[1][i]], ref0):
-            if not U.close_to(a, b, 1e-9, scale=1.0):
-                fails.append(f"{name} = {a!r} is not the mean/sd of the image under the mask ({b!r})")
+            if not U.close_to(a, b, tol0, scale=sc0):
+                fails.append(f"{name} = {a!r} is not the mean/sd of the image under the mask "
+                             f"({b!r}; image {imgs[i].dtype})")
     # single-image calls agree with the batch call
     for i in range(n):
         o_i = eff[i]
@@ -830,12 +955,24 @@ def bright_eval(M, case):
     return fails, out
 
 
-def exact_stats(mask, img, bg):
+def px_value(x, trunc):
+    """exact value of a pixel; `trunc`: the cast `np.array(image, dtype=int)` of the code
+    (truncation towards zero, only relevant for non-integral float images: observation O12)"""
+    if isinstance(x, (np.integer, int)):
+        return Fraction(int(x))
+    f = Fraction(float(x))
+    return Fraction(math.trunc(f)) if trunc else f
+
+
+def exact_stats(mask, img, bg, trunc=True):
     """the definition: mean, population sd and linearly interpolated 10th/90th percentile of
-    img - bg under the mask, in exact arithmetic"""
-    v = sorted(int(a) - int(b) for m, a, b in zip(mask.ravel(), img.ravel(), bg.ravel()) if m)
+    img - bg under the mask, in exact arithmetic (bg=None: the image itself)"""
+    mi = np.nonzero(mask.ravel())[0]
+    ir = img.ravel()
+    br = None if bg is None else bg.ravel()
+    v = sorted(px_value(ir[k], trunc) - (0 if br is None else px_value(br[k], False)) for k in mi)
     n = len(v)
-    mean = Fraction(sum(v), n)
+    mean = sum(v) / n
     var = sum((x - mean) ** 2 for x in v) / n
 
     def perc(q):
@@ -843,7 +980,12 @@ def exact_stats(mask, img, bg):
         lo = int(pos)
         hi = min(lo + 1, n - 1)
         return v[lo] + (v[hi] - v[lo]) * (pos - lo)
-    return float(mean), math.sqrt(float(var)), float(perc(10)), float(perc(90))
+    return float(mean), math.sqrt(var), float(perc(10)), float(perc(90))
+
+
+def bright_scale(*arrs):
+    """absolute comparison floor: float64 sums of values of magnitude M carry about 1e-16*M"""
+    return 1.0 + 1e-6 * max(float(np.abs(np.asarray(a, dtype=np.float64)).max()) for a in arrs)
 
 
 def shrink_bright(M, case):
@@ -887,13 +1029,28 @@ def part_d(ctx, M, jobs):
         n = len(case["masks"])
         ctx.stat("D:off=" + case["off_kind"])
         ctx.stat(f"D:events={n}")
+        ctx.stat(f"D:dtype={case['imgs'][0].dtype}/{case['bgs'][0].dtype}")
+        mx = max(float(np.asarray(a, dtype=np.float64)[m_].max())
+                 for a, m_ in zip(case["imgs"], case["masks"]))
+        if mx >= 32768:
+            ctx.stat("D:masked-pixel>=32768")
+        if any((np.asarray(b, dtype=np.float64)[m_] > np.asarray(a, dtype=np.float64)[m_]).any()
+               for a, b, m_ in zip(case["imgs"], case["bgs"], case["masks"])):
+            ctx.stat("D:background>image")
+        if case.get("frac_img"):
+            ctx.stat("D:fractional-float-image")
+            ctx.note("O12 (C18): get_bright_bc/get_bright_perc cast the image to int before the "
+                     "background subtraction ('cast to integer before subtraction'), so float "
+                     "images with fractional values are truncated towards zero; the model and the "
+                     "reference apply the same cast (dclab images are integer typed).")
         r = guarded(bright_eval, M, case)
         ctx.case(("D", case["off_kind"], tuple(case["off_values"]), case["stack"],
                   tuple(m.tobytes() for m in case["masks"]),
-                  tuple(a.tobytes() for a in case["imgs"])),
+                  tuple(a.dtype.str.encode() + a.tobytes() for a in case["imgs"])),
                  nontrivial=case["off_kind"] != "none",
                  sample={"part": "D", "off_kind": case["off_kind"], "events": n,
-                         "shape": list(case["masks"][0].shape)})
+                         "shape": list(case["masks"][0].shape),
+                         "dtypes": [str(case["imgs"][0].dtype), str(case["bgs"][0].dtype)]})
         if r[0] != "ok":
             ctx.violation("spec", f"brightness evaluation crashed: {r[1]}", bright_payload(case))
             continue
@@ -906,26 +1063,30 @@ def part_d(ctx, M, jobs):
         eff = effective_offsets(case["off_kind"], case["off_values"], n)
         for j in range(n):
             mk, im, bg = case["masks"][j], case["imgs"][j], case["bgs"][j]
-            px = " ".join(f"{int(a)}:{int(b)}:{int(c)}"
+            px = " ".join(f"{int(a)}:{U.rat(px_value(b, True))}:{U.rat(px_value(c, False))}"
                           for a, b, c in zip(mk.ravel(), im.ravel(), bg.ravel()))
-            px0 = " ".join(f"{int(a)}:{int(b)}:0" for a, b in zip(mk.ravel(), im.ravel()))
+            px0 = " ".join(f"{int(a)}:{U.rat(px_value(b, False))}:0"
+                           for a, b in zip(mk.ravel(), im.ravel()))
+            sc = bright_scale(im, bg)
+            tol0 = 1e-6 if im.dtype == np.float32 else 1e-9
+            sc0 = sc if im.dtype != np.float32 else sc * 1e6
             impl = [out["bc"][0][j], out["bc"][1][j], out["pc"][0][j], out["pc"][1][j]]
             impl0 = [out["bright"][0][j], out["bright"][1][j]]
             rp = dict(bright_payload(case), event=j)
 
-            def cb(ans, impl=impl, rp=rp):
+            def cb(ans, impl=impl, rp=rp, sc=sc):
                 avg, var, p10, p90 = [U.unrat(v) for v in ans.split()]
-                model = [float(avg), math.sqrt(float(var)), float(p10), float(p90)]
+                model = [float(avg), math.sqrt(var), float(p10), float(p90)]
                 for name, a, b in zip(["bright_bc_avg", "bright_bc_sd", "bright_perc_10",
                                        "bright_perc_90"], impl, model):
-                    if not U.close_to(a, b, 1e-9, scale=1.0):
+                    if not U.close_to(a, b, 1e-9, scale=sc):
                         return (f"{name} vs model", repr(a), repr(b), rp)
 
-            def cb0(ans, impl0=impl0, rp=rp):
+            def cb0(ans, impl0=impl0, rp=rp, sc=sc0, tol0=tol0):
                 avg, var, _, _ = [U.unrat(v) for v in ans.split()]
                 for name, a, b in zip(["bright_avg", "bright_sd"], impl0,
-                                      [float(avg), math.sqrt(float(var))]):
-                    if not U.close_to(a, b, 1e-9, scale=1.0):
+                                      [float(avg), math.sqrt(var)]):
+                    if not U.close_to(a, b, tol0, scale=sc):
                         return (f"{name} vs model", repr(a), repr(b), rp)
             jobs.add(f"bright {'-' if eff[j] is None else U.rat(eff[j])} " + px, cb)
             jobs.add("bright - " + px0, cb0)
@@ -1102,8 +1263,9 @@ def replay(ctx, data):
             fails = ["remove_duplicates differs from the reference"]
     elif part == "B":
         import random
-        fails = moments_oracles(M, np.array(p["cont"], dtype=np.dtype(p["dtype"])),
-                                random.Random(0))
+        cc = np.array(p["cont"], dtype=np.dtype(p["dtype"]))
+        fails, cc = purity_fails(M["inert"], cc)
+        fails = fails or moments_oracles(M, cc, random.Random(0))
     elif part == "C":
         import random
         fails = volume_oracles(M, np.array(p["cont"], dtype=np.dtype(p["dtype"])), p["pos_x"],
